@@ -128,12 +128,12 @@ def deep_wire_values(max_depth=64):
     return st.builds(build, layers, wire_leaves())
 
 
-def chain(depth, pattern, leaf):
+def chain(depth, pattern, leaf, key='k'):
     """deterministic chain: pattern 'A', 'F' or 'AF' (alternating), `depth` containers"""
     v = leaf
     for i in range(depth):
         kind = pattern[(depth - 1 - i) % len(pattern)]
-        v = ['A', [v]] if kind == 'A' else ['F', [['k', v]]]
+        v = ['A', [v]] if kind == 'A' else ['F', [[key, v]]]
     return v
 
 
@@ -144,8 +144,11 @@ class Out:
         self.buf = bytearray()
         self.marks = []
 
-    def mark(self, kind, width):
-        self.marks.append({'off': len(self.buf), 'w': width, 'kind': kind})
+    def mark(self, kind, width, of=None):
+        m = {'off': len(self.buf), 'w': width, 'kind': kind}
+        if of:
+            m['of'] = of          # which construct the length belongs to (A / F / S)
+        self.marks.append(m)
 
     def add(self, b):
         self.buf += b
@@ -170,7 +173,7 @@ def render_value(v, out):
         out.add(uint(v[1], 1))
         out.add(sint(v[2], 4))
     elif tag in 'Sx':
-        out.mark('len32', 4)
+        out.mark('len32', 4, 'S')
         out.add(uint(len(v[1]), 4))
         out.add(v[1])
     elif tag == 'T':
@@ -187,7 +190,7 @@ def render_value(v, out):
 
 
 def render_array(items, out):
-    out.mark('len32', 4)
+    out.mark('len32', 4, 'A')
     at = len(out.buf)
     out.add(b'\x00\x00\x00\x00')
     for x in items:
@@ -196,7 +199,7 @@ def render_array(items, out):
 
 
 def render_table(pairs, out):
-    out.mark('len32', 4)
+    out.mark('len32', 4, 'F')
     at = len(out.buf)
     out.add(b'\x00\x00\x00\x00')
     for k, x in pairs:
